@@ -33,6 +33,7 @@ class FuncSrc:
         seg = ast.get_source_segment(text, fdef) or ast.unparse(fdef)
         self.sha = hashlib.sha256(seg.encode()).hexdigest()[:16]
         self.lines = (fdef.lineno, fdef.end_lineno)
+        self.aliases = {}
 
 
 _cache = {}
@@ -75,6 +76,11 @@ def load(target: str, client_src=None) -> FuncSrc:
         raise LookupError(f"{qual} in {path} is not a function")
     fi = info.get(node.name, {})
     fs = FuncSrc(path, qual, node, text, fi.get("locals"), fi.get("params"), fi.get("ret"))
+    fs.aliases = {}
+    for st_ in tree.body:
+        if isinstance(st_, ast.Import):
+            for al in st_.names:
+                fs.aliases[al.asname or al.name] = al.name
     _cache[key] = fs
     return fs
 
